@@ -668,13 +668,43 @@ func main() {
 		count := map[string]int{}
 		first := map[string]ast.Expr{}
 		ast.Inspect(fn.Body, func(n ast.Node) bool {
-			if as, ok := n.(*ast.AssignStmt); ok && len(as.Lhs) == 1 && len(as.Rhs) == 1 {
-				if id, ok := as.Lhs[0].(*ast.Ident); ok && id.Name != "_" {
-					if count[id.Name] == 0 {
-						first[id.Name] = as.Rhs[0]
+			switch as := n.(type) {
+			case *ast.AssignStmt:
+				for i, l := range as.Lhs {
+					id, ok := l.(*ast.Ident)
+					if !ok || id.Name == "_" {
+						continue
 					}
-					defs[id.Name] = as.Rhs[0]
-					count[id.Name]++
+					if len(as.Lhs) == 1 && len(as.Rhs) == 1 && (as.Tok == token.DEFINE || as.Tok == token.ASSIGN) {
+						if count[id.Name] == 0 {
+							first[id.Name] = as.Rhs[0]
+						}
+						defs[id.Name] = as.Rhs[0]
+						count[id.Name]++
+					} else {
+						// `x += e`, `a, b := f()`: x is written in a way the slice does not follow
+						if count[id.Name] == 0 && len(as.Rhs) > i {
+							first[id.Name] = as.Rhs[i]
+						}
+						if defs[id.Name] == nil && len(as.Rhs) > 0 {
+							defs[id.Name] = as.Rhs[0]
+						}
+						count[id.Name] += 2
+					}
+				}
+			case *ast.IncDecStmt:
+				if id, ok := as.X.(*ast.Ident); ok {
+					count[id.Name] += 2 // `x++` / `x--`: not a single assignment any more
+				}
+			case *ast.RangeStmt:
+				for _, e := range []ast.Expr{as.Key, as.Value} {
+					if id, ok := e.(*ast.Ident); ok && id.Name != "_" {
+						count[id.Name] += 2 // loop variables are inputs
+						if defs[id.Name] == nil {
+							defs[id.Name] = id
+							first[id.Name] = id
+						}
+					}
 				}
 			}
 			return true
